@@ -15,7 +15,8 @@ import core
 LEVEL_NOTE = ("theorems are about model/CopyOps.v (copy_ecu, copy_frame, copy_ecu_with_frames, copy_signal, merge, "
               "add_define_default, X.attribute); names/strings/value tables/signal layouts are interned integers, deep copies are "
               "values (aliasing is checked on the implementation by the search only); frame_by_id is a scan (memo = C10); ECU/signal "
-              "globs are exact names and '*'; envelope: attribute names are not attrs field names and are not shared across define "
+              "globs: every fnmatch spelling is requested ('*', 'x*', '?', '[seq]', '[!seq]'); the harness resolves a pattern with "
+              "its own matcher and hands the model the selected names (the model's glob is None = '*' or the list of selected names); envelope: attribute names are not attrs field names and are not shared across define "
               "categories (DBC namespace, hypothesis ns_ok of the theorems; the overwrite that happens otherwise is shown by "
               "C12_shared_names_refuted and replayed as an observation), equal-named definitions are both ENUM or both not "
               "(otherwise AttributeError, modelled as m_err and tied), no surrounding blanks / quotes in names and values; "
@@ -218,12 +219,15 @@ class Oracle:
         self.inp = case_input
         self.in_envelope = True
         self.variant = "plain"
+        self.pattern_request = False
 
     PER_KEY = {}
 
     def bad(self, key, what, expected=None, observed=None):
         if self.in_envelope and self.variant != "plain":
             key = "edge-value:" + key          # the failing case is one of the empty-string / "0" value variants
+        elif self.in_envelope and self.pattern_request:
+            key = "glob-pattern:" + key        # the failing request selects by a pattern other than an exact name or "*"
         if self.in_envelope:
             # core keeps the first 50 violations of a run: leave room for every failure class (first = smallest case)
             n = Oracle.PER_KEY.get(key, 0)
@@ -351,6 +355,68 @@ class Oracle:
 
 def ids_of(db):
     return [(f.arbitration_id.id, bool(f.arbitration_id.extended)) for f in db.frames]
+
+
+def own_glob(pat, name):
+    """the oracle's own reading of an fnmatch pattern (case sensitive): '*' any run, '?' one character, '[seq]' / '[!seq]' one
+    character in / not in seq (ranges a-b allowed); a '[' without closing ']' is a literal"""
+    def cls(p, i):
+        # p[i] == '[': returns (negated, set-description, index after ']') or None
+        j = i + 1
+        if j < len(p) and p[j] == "!":
+            j += 1
+        if j < len(p) and p[j] == "]":
+            j += 1
+        while j < len(p) and p[j] != "]":
+            j += 1
+        if j >= len(p):
+            return None
+        body = p[i + 1:j]
+        neg = body.startswith("!")
+        return neg, (body[1:] if neg else body), j + 1
+
+    def in_set(body, ch):
+        k = 0
+        while k < len(body):
+            if k + 2 < len(body) and body[k + 1] == "-":
+                if body[k] <= ch <= body[k + 2]:
+                    return True
+                k += 3
+            else:
+                if body[k] == ch:
+                    return True
+                k += 1
+        return False
+
+    def m(i, j):
+        if i == len(pat):
+            return j == len(name)
+        c = pat[i]
+        if c == "*":
+            return any(m(i + 1, k) for k in range(j, len(name) + 1))
+        if j == len(name):
+            return False
+        if c == "?":
+            return m(i + 1, j + 1)
+        if c == "[":
+            r = cls(pat, i)
+            if r is not None:
+                neg, body, nxt = r
+                return (in_set(body, name[j]) != neg) and m(nxt, j + 1)
+        return c == name[j] and m(i + 1, j + 1)
+    return m(0, 0)
+
+
+def glob_class(pat):
+    if pat == "*":
+        return "star"
+    if "[" in pat:
+        return "class"
+    if "?" in pat:
+        return "question"
+    if "*" in pat:
+        return "star-affix"
+    return "exact"
 
 
 def fkey(f):
@@ -488,7 +554,7 @@ def apply_op(chk, C, cp, orc, tdb, op, sdbs, I):
     elif kind == "ecu_frames":
         # exactly the frames the requested ECUs send and/or receive, as requested, that were not present: a SET of identifiers
         # (the property fixes neither the order of the passes nor the position of the copies in target.frames)
-        wanted = [e.name for e in sdb.ecus if op["glob"] == "*" or e.name == op["glob"]]
+        wanted = [e.name for e in sdb.ecus if own_glob(op["glob"], e.name)]
         exp = {}
         for f in sdb.frames:
             k = fkey(f)
@@ -508,12 +574,12 @@ def apply_op(chk, C, cp, orc, tdb, op, sdbs, I):
                 orc.bad("requested-ecu-missing", "the ECU that was asked to be copied is not in the target afterwards", dict(ecu=n))
         orc.brought_ecus(wanted, ecus_before, sdb, tdb, True)
     elif kind == "ecu":
-        wanted = [e.name for e in sdb.ecus if op["glob"] == "*" or e.name == op["glob"]]
+        wanted = [e.name for e in sdb.ecus if own_glob(op["glob"], e.name)]
         orc.brought_ecus(wanted, ecus_before, sdb, tdb, False)
         if sorted(ids_of(tdb)) != sorted(ids_before):
             orc.bad("frame-set", "copy_ecu changed the frames of the target")
     elif kind == "signal":
-        exp = [s for f in sdb.frames for s in f.signals if op["glob"] == "*" or s.name == op["glob"]]
+        exp = [s for f in sdb.frames for s in f.signals if own_glob(op["glob"], s.name)]
         new = new_objects(tdb.signals, sigs_before)
         if len(new) != len(exp):
             orc.bad("signal-set", "copy_signal did not add exactly the matching signals", len(exp), len(new))
@@ -611,6 +677,11 @@ def systematic_cases():
                                    ([dict(op="merge", n=2)], [src2, src])]
                             if names != "distinct":
                                 ops = [ops[0], ops[1], ops[4], ops[8]]
+                            elif variant == "plain" and not pre_a:
+                                ops += [([dict(op="ecu_frames", glob="?", rx=True, tx=True, direct=False)], [src]),
+                                        ([dict(op="ecu_frames", glob="[AB]", rx=False, tx=True, direct=True)], [src]),
+                                        ([dict(op="ecu", glob="[!B]")], [src]),
+                                        ([dict(op="signal", glob="s?")], [src])]
                             if cat == "sig" and sstate == "novalue":
                                 # copy_signal and a definition the copied signal has no value for (no explicit value, no default):
                                 # the statement says nothing about free-signal copies beyond the bystander rule, and whether such a
@@ -703,8 +774,9 @@ def gen_op(rng, src, tgt, malformed):
         kind = "ecu"         # see systematic_cases: copy_signal is requested only when every signal definition of the source has a default
     if kind == "signal":
         snames = [s["name"] for f in src["frames"] for s in f["sigs"]]
-        return dict(op="signal", glob=rng.choice(snames + ["*", "nosuch"]))
-    g = rng.choice(names + ["*", "E7"])
+        return dict(op="signal", glob=rng.choice(snames + ["*", "nosuch", "s?", "s[01]", "s[!0]", "s[1-3]", "*2", "s*"]))
+    # ECU by name or glob: every fnmatch spelling, not only exact names and "*"
+    g = rng.choice(names + ["*", "E7", "E?", "E[01]", "E[!0]", "E[1-3]", "?1", "E*", "*2", "[E]2"])
     if kind == "ecu":
         return dict(op="ecu", glob=g)
     return dict(op="ecu_frames", glob=g, rx=rng.random() < 0.7, tx=rng.random() < 0.7, direct=rng.random() < 0.5)
@@ -724,21 +796,25 @@ def random_case(rng, stream):
 
 
 # ------------------------------------------------------------------ encoding of a case for the model
-def glob_z(I, g):
-    return -1 if g == "*" else I(g)
-
-
-def op_header(I, op):
+def op_header(I, op, src):
     k = op["op"]
     if k == "frame":
         return [10, op["id"], int(op["ext"])]
+    if k == "merge":
+        return [14, op["n"]]
+    names = [s["name"] for f in src["frames"] for s in f["sigs"]] if k == "signal" else [e[0] for e in src["ecus"]]
+    if op["glob"] == "*":
+        g, sel = -1, []
+    else:
+        g, sel = 0, []
+        for n in names:
+            if own_glob(op["glob"], n) and I(n) not in sel:
+                sel.append(I(n))
     if k == "ecu":
-        return [11, glob_z(I, op["glob"])]
+        return [11, g] + sel
     if k == "ecu_frames":
-        return [12, glob_z(I, op["glob"]), int(op["rx"]), int(op["tx"]), int(op["direct"])]
-    if k == "signal":
-        return [13, glob_z(I, op["glob"])]
-    return [14, op["n"]]
+        return [12, g, int(op["rx"]), int(op["tx"]), int(op["direct"])] + sel
+    return [13, g] + sel
 
 
 def minimal_independence_probe(chk, C, cp):
@@ -807,7 +883,7 @@ def run(chk):
                 "(own violation keys edge-value:*), and the target's frame carrying the NAME of the copied frame / also an equally named "
                 "signal under another identifier) under 9 copy requests (frame by id, merge of one source, merge of two sources with the "
                 "same frame and signal names under different ids and different defaults, signal, ECU, ECU with frames "
-                "rx/tx/both, direct or not, glob '*'); random stream (frame names from a pool of 3 independent of ids, signal names from a pool of 4): target and 1..4 sources drawn from small pools of ids, ECU names, "
+                "rx/tx/both, direct or not, glob '*', and the pattern requests '?', '[AB]', '[!B]', 's?' with violation keys glob-pattern:*); random stream (frame names from a pool of 3 independent of ids, signal names from a pool of 4): target and 1..4 sources drawn from small pools of ids, ECU names, "
                 "definitions (equal names with different defaults, ENUM value lists, missing defaults), explicit values, histories of "
                 "1..4 copies/merges; shared-names and malformed streams (names shared across categories, duplicate ids/signal names, "
                 "ENUM vs STRING under one name, absent ids) are tied only. non-trivial = the history changed a non-empty target; "
@@ -853,12 +929,15 @@ def run(chk):
         raised = False
         for op, srcs in case["history"]:
             sdbs = [build(C, s) for s in srcs]
-            groups.append(op_header(I, op))
+            groups.append(op_header(I, op, srcs[0]))
             for s in sdbs:
                 groups += nf_matrix(I, s) + [[0]]
             if raised:
                 continue
             chk.count("op-" + op["op"])
+            orc.pattern_request = "glob" in op and glob_class(op["glob"]) not in ("exact", "star")
+            if "glob" in op:
+                chk.count("glob-" + glob_class(op["glob"]))
             raised, res = apply_op(chk, C, cp, orc, tdb, op, sdbs, I)
             if op["op"] == "frame" and not raised:
                 results.append(int(bool(res)))
